@@ -6,6 +6,7 @@ import (
 	"fmt"
 	"go/token"
 	"go/types"
+	"strings"
 
 	"golang.org/x/tools/go/ssa"
 )
@@ -1125,6 +1126,121 @@ func staleGuards(fn *ssa.Function) (out []staleGuard, nReads int) {
 				return
 			}
 		}
+	})
+	return
+}
+
+// writesThrough: the instructions of fn that write into the storage of one of the given slice values or of a reslice /
+// append result / phi of them: append or copy with it as destination, a store into an element, a sort of it.
+func writesThrough(fn *ssa.Function, roots []ssa.Value) (out []ssa.Instruction, what []string) {
+	tainted := map[ssa.Value]bool{}
+	for _, r := range roots {
+		tainted[r] = true
+	}
+	for changed := true; changed; {
+		changed = false
+		eachInstr(fn, func(_ *ssa.BasicBlock, in ssa.Instruction) {
+			v, ok := in.(ssa.Value)
+			if !ok || tainted[v] {
+				return
+			}
+			switch x := in.(type) {
+			case *ssa.Slice:
+				if tainted[x.X] {
+					tainted[v], changed = true, true
+				}
+			case *ssa.ChangeType:
+				if tainted[x.X] {
+					tainted[v], changed = true, true
+				}
+			case *ssa.Phi:
+				for _, e := range x.Edges {
+					if tainted[e] {
+						tainted[v], changed = true, true
+					}
+				}
+			case *ssa.Call:
+				if bi, ok := x.Call.Value.(*ssa.Builtin); ok && bi.Name() == "append" && tainted[x.Call.Args[0]] {
+					tainted[v], changed = true, true
+				}
+			}
+		})
+	}
+	eachInstr(fn, func(_ *ssa.BasicBlock, in ssa.Instruction) {
+		w := ""
+		switch x := in.(type) {
+		case *ssa.Call:
+			if bi, ok := x.Call.Value.(*ssa.Builtin); ok {
+				if (bi.Name() == "append" || bi.Name() == "copy") && tainted[x.Call.Args[0]] {
+					w = bi.Name() + "s onto"
+				}
+			} else if len(x.Call.Args) > 0 && isSortCallShallow(&x.Call) {
+				a := x.Call.Args[0]
+				if mi, ok := a.(*ssa.MakeInterface); ok {
+					a = mi.X
+				}
+				if tainted[a] {
+					w = "sorts"
+				}
+			}
+		case *ssa.Store:
+			if ia, ok := x.Addr.(*ssa.IndexAddr); ok && tainted[ia.X] {
+				w = "stores into"
+			}
+		}
+		if w != "" {
+			out = append(out, in)
+			what = append(what, w)
+		}
+	})
+	return
+}
+
+// scratchGlobals: calls in fn that hand the storage of a package-level array or slice variable (accepted by isOurs)
+// to something that writes into its first argument: append, copy, the Append* family of the standard library.
+func scratchGlobals(fn *ssa.Function, isOurs func(*ssa.Global) bool, foreign func(*types.Func) bool) (out []ssa.Instruction, globals []*ssa.Global, writers []string) {
+	eachInstr(fn, func(_ *ssa.BasicBlock, in ssa.Instruction) {
+		ci, ok := in.(ssa.CallInstruction)
+		if !ok || len(ci.Common().Args) == 0 {
+			return
+		}
+		writer := ""
+		if bi, ok := ci.Common().Value.(*ssa.Builtin); ok && (bi.Name() == "append" || bi.Name() == "copy") {
+			writer = bi.Name()
+		} else if co := calleeObj(ci.Common()); co != nil && co.Pkg() != nil && foreign(co) && strings.HasPrefix(co.Name(), "Append") {
+			writer = co.FullName()
+		}
+		if writer == "" {
+			return
+		}
+		dst := ci.Common().Args[0]
+		if _, isSlice := dst.Type().Underlying().(*types.Slice); !isSlice {
+			return
+		}
+		var g *ssa.Global
+		v := dst
+		for i := 0; i < 6 && g == nil; i++ {
+			switch x := v.(type) {
+			case *ssa.Slice:
+				v = x.X
+			case *ssa.UnOp:
+				if x.Op == token.MUL {
+					v = x.X
+				} else {
+					i = 6
+				}
+			case *ssa.Global:
+				g = x
+			default:
+				i = 6
+			}
+		}
+		if g == nil || !isOurs(g) {
+			return
+		}
+		out = append(out, in)
+		globals = append(globals, g)
+		writers = append(writers, writer)
 	})
 	return
 }
